@@ -145,6 +145,12 @@ func (w *World) verifyFunction(fn *ssa.Function, ct *Contract, tag string, safeA
 			break
 		}
 		for i, cl := range ct.Ensures {
+			if hasTag(cl.Tags, "assumed") {
+				// an assumed postcondition of a function whose body is
+				// otherwise verified: used by callers, not proved here
+				vc.usedSpecs["contract:assumed postcondition of "+shortFn(fn)+": "+cl.Text] = true
+				continue
+			}
 			if !e.tagActive(cl.Tags) {
 				continue
 			}
@@ -256,6 +262,16 @@ func (fr *frame) declaredMods(m ModSpec, ctx *specCtx) []declMod {
 	switch m.Kind {
 	case "all":
 		return []declMod{{key: "*"}}
+	case "everything":
+		// all, and every bookkeeping ghost: the function may run code that is
+		// not known here (callbacks, goroutines) which may reach any contract
+		ds := []declMod{{key: "*"}}
+		for _, g := range fr.enc.db.Ghosts {
+			if g.Book {
+				ds = append(ds, declMod{key: vc.keyGhost(g)})
+			}
+		}
+		return ds
 	case "heap":
 		return []declMod{{key: "*heap"}}
 	case "ghost":
@@ -355,4 +371,13 @@ func uniq(xs []string) []string {
 		}
 	}
 	return out
+}
+
+func hasTag(tags []string, t string) bool {
+	for _, x := range tags {
+		if x == t {
+			return true
+		}
+	}
+	return false
 }
